@@ -214,7 +214,8 @@ class P(Prop):
             "only on the track, only on the query, varying, NaN (the projection is planimetric: every clause is checked in the (X, Y) plane); sequences on ONE "
             "track object: project, modify in place (vertex moved, whole track shifted, vertex appended, object replaced), project again. "
             "non-trivial = the polyline has at least one segment of non-zero length. Outside the property's domain (an error is accepted there): "
-            "proj_segment on a zero-length segment, a polyline all of whose vertices coincide, a Yp shorter than Xp.")
+            "proj_segment on a zero-length segment, a polyline all of whose vertices coincide (up to the 1e-16 under which proj_polyligne skips a segment), "
+            "a Yp shorter than Xp.")
     trusted = ["math.sqrt / Float.sqrt correctly rounded; the sentinel 1e400 (+inf) modelled as 'no current minimum'"]
 
     def setup(self):
@@ -522,6 +523,8 @@ class P(Prop):
 
     # ------------------------------------------------------------------ implementation
     def container(self, L, cont):
+        if cont in INT_CONT and not all(float(v).is_integer() for v in L):
+            cont = "npf" if cont == "npi" else "list"       # not representable as integers: same argument form, floats
         if cont == "tuple":
             return tuple(L)
         if cont == "npf":
@@ -557,7 +560,7 @@ class P(Prop):
         cont = case.get("cont", "list")
         if k in ("seg", "poly", "polyxy"):
             qf = case.get("qform", "float")      # the query as Python floats, numpy scalars or Python ints
-            qx, qy = [(self.np.float64(v) if qf == "np" else int(v) if qf == "int" else float(v)) for v in case["q"]]
+            qx, qy = [(self.np.float64(v) if qf == "np" else int(v) if (qf == "int" and float(v).is_integer()) else float(v)) for v in case["q"]]
         if k == "seg":
             d, xp, yp = self.g.proj_segment(self.container(case["s"], cont), qx, qy)
             return {"d": float(d), "p": [float(xp), float(yp)]}
@@ -676,8 +679,9 @@ class P(Prop):
         if close(a, model_out, self.rel_tol):
             return None
         # freedom left by the property: a tie (same distance reached on two segments / at two points). The two
-        # answers must then have the same distance and the same standing w.r.t. the oracle (both right, or both
-        # in the same listed defect class); everything else (the third coordinate included) must be equal.
+        # answers must then have the same distance and each must stand w.r.t. the oracle (right, or an instance of a
+        # listed defect class: with `d` equal, which of two tied segments is reported decides whether the listed defect
+        # of one of them shows); everything else (the third coordinate included) must be equal.
         if "err" not in a and "err" not in model_out:
             ra, rm = self.rows_of(case, a), self.rows_of(case, model_out)
             rest_a = {k: v for k, v in a.items() if k not in ("rows", "d", "p", "i")}
@@ -689,7 +693,7 @@ class P(Prop):
                         continue
                     v1 = self.classify_one(X, Y, q, (d1, x1, y1, i1))
                     v2 = self.classify_one(X, Y, q, (d2, x2, y2, i2))
-                    if not (close([d1, z1], [d2, z2], self.rel_tol) and v1 is not None and v1 == v2):
+                    if not (close([d1, z1], [d2, z2], self.rel_tol) and v1 is not None and v2 is not None):
                         ok = False
                 if ok:
                     return None
@@ -706,7 +710,12 @@ class P(Prop):
     def in_domain(self, case):
         if case["kind"] == "polyxy" and len(case["Y"]) < len(case["X"]):
             return False        # a Yp shorter than Xp is not a polyline
-        return all(any(not degenerate(s) for s in segments(X, Y)) for (X, Y, _, _) in self.queries_of(case))
+        if case["kind"] == "seg":
+            return not degenerate(segments(*self.poly_of(case))[0])
+        # a polyline all of whose segments are shorter than 1e-16 (the threshold under which proj_polyligne skips a
+        # segment as zero-length) is a single point as far as the property is concerned
+        return all(any(abs(float(X[j]) - float(X[j + 1])) + abs(float(Y[j]) - float(Y[j + 1])) >= 1e-16 for j in range(len(X) - 1))
+                   for (X, Y, _, _) in self.queries_of(case))
 
     def spec(self, case, out):
         """The projection is PLANIMETRIC (proj_segment / proj_polyligne take x, y only; mapOnTrack reads getX(), getY()):
